@@ -1,19 +1,19 @@
-\* C41 quick: all (context, a, b)
+\* C41 quick: legacy density resolution, all (deep context, a, b) over ratio tips at four magnitudes
 CONSTANT MaxBN = 1
-CONSTANT MaxVRF = 1
-CONSTANT MaxSlot = 3
-CONSTANT ForkSlots = {0, 2}
-CONSTANT Windows = {0, 2}
-CONSTANT DepthSet = "std"
-CONSTANT TrimShallow = FALSE
+CONSTANT MaxVRF = 0
+CONSTANT MaxSlot = 1
+CONSTANT ForkSlots = {1}
+CONSTANT Windows = {0}
+CONSTANT DepthSet = "deep"
+CONSTANT TrimShallow = TRUE
 CONSTANT Arity = 2
 CONSTANT SampleMod = 1
-CONSTANT TipKind = "slots"
-CONSTANT RBlocks = {}
-CONSTANT SpanBases = {}
-CONSTANT SpanMults = {}
-CONSTANT SpanOffsets = {}
-CONSTANT ResRoot = 1
+CONSTANT TipKind = "ratio"
+CONSTANT RBlocks = {1, 2}
+CONSTANT SpanBases = {3, 1000, 1000000, 300000000}
+CONSTANT SpanMults = {1, 2}
+CONSTANT SpanOffsets = {0, 1}
+CONSTANT ResRoot = 31623
 INIT Init
 NEXT Next
 INVARIANT Reflexive
@@ -24,7 +24,6 @@ INVARIANT LongerWins
 INVARIANT LowerVrfWins
 INVARIANT MissingVrfLoses
 INVARIANT EqualIffSameKey
-INVARIANT DeepDensityFirst
 INVARIANT DeepDenserWins
 INVARIANT DenserIsStrict
 INVARIANT DensityOrderIsDenser
